@@ -76,3 +76,40 @@ Proof.
   rewrite exp_reify. split; [exact H1|]. split; [exact H2|]. split; [exact H3|].
   split; [exact R1|]. split; [exact R2|]. split; [exact R3|]. split; [exact R6|exact R7].
 Qed.
+
+(** the hypothesis [members_named] is needed: [exk_heap] is an "object" (root 1) holding a member without name
+    (node 2: what cJSON_AddItemToArray(object, item) builds).  Every other hypothesis of [find_pointer_refines]
+    holds; the search finds the member, then [pointer_encoded_length(current_child->string)] reads through NULL:
+    [NullDeref] (confirmed on /repo with an ASan probe: SEGV in pointer_encoded_length, cJSON_Utils.c:165).
+    The value-level model returns [None] at this point ([PointerDefs.find_pointer]: "the C code dereferences
+    NULL here"). *)
+Definition exk_member : tree := T 2 (mkRD 8 None 1 (S754_zero false) None None) [].
+Definition exk_root : tree := T 1 (mkRD 64 None 0 (S754_zero false) None None) [exk_member].
+Definition exk_F : forest := [exk_root].
+Definition exk_heap : heap := heap_of_forest exk_F ∅.
+Definition out_err {A} (o : out (A * heap)) : option err := match o with Err e => Some e | Ret _ => None end.
+
+Theorem keyless_member_null_deref :
+  MInv exk_heap exk_F /\ exk_root ∈ nodes exk_F /\ subtree_t exk_root [0%nat] = Some exk_member /\
+  small_nodes exk_root /\ ~ members_named exk_root /\
+  out_err (cJSONUtils_FindPointerFromObjectTo nofail exp_junk (Some 1%positive) (Some 2%positive) exk_heap) = Some NullDeref /\
+  PointerDefs.cJSONUtils_FindPointerFromObjectTo (reify (h_str exk_heap) exk_root) [0%nat] = None.
+Proof.
+  split; [apply heap_of_forest_MInv; vm_compute; reflexivity|].
+  split; [apply (elem_of_list_lookup_2 _ 0%nat); reflexivity|]. split; [reflexivity|].
+  split.
+  { intros n Hn. change (nodes_t exk_root) with [exk_root; exk_member] in Hn.
+    apply elem_of_cons in Hn as [->|Hn]; [vm_compute; discriminate|].
+    apply elem_of_list_singleton in Hn as ->. vm_compute. discriminate. }
+  split.
+  { intros H. apply (H exk_root (nodes_t_self _) eq_refl exk_member); [by left|reflexivity]. }
+  split; vm_compute; reflexivity.
+Qed.
+
+(** the never-failing allocator is needed: the results of the cJSON_malloc calls in the loop body are not
+    tested.  With the second request refused (the first is the strdup("") at the target, which does test its
+    result) [full_pointer[0] = '/'] writes through NULL — the observation of DESIGN 11.6, in the model. *)
+Definition exp_oracle2 : nat -> bool := fun n => Nat.eqb n 1.
+Theorem alloc_failure_null_deref :
+  out_err (cJSONUtils_FindPointerFromObjectTo exp_oracle2 exp_junk (Some 1%positive) (Some 7%positive) exp_heap) = Some NullDeref.
+Proof. vm_compute. reflexivity. Qed.
